@@ -61,6 +61,32 @@ Theorem C24_later_nears_clear_of_center_nears :
     clear_of_b margin tol (n_key c) (near_box c pc) (n_key d) (near_box d pd) = true.
 Proof. exact thm_clear_of_centers. Qed.
 
+(* The bounding box of the WHOLE main diagram, [full_box], also counts the shapes whose near is another
+   shape (boundingBox skips them).  Without such shapes it is the box above, and the property holds: *)
+Theorem C24_near_outside_whole_diagram_guarded :
+  forall main pts ns n p margin tol,
+    no_obj_near_b main = true ->
+    has_shape_b main = true -> forallb label_dims_ok_b ns = true ->
+    margin <= pad -> 0 <= tol ->
+    In (n, p) (combine ns (layout main pts ns)) ->
+    side_ok_b margin tol (full_box main pts []) (n_key n) (near_box n p) = true /\
+    center_ok_b tol (full_box main pts []) (n_key n) (near_box n p) = true.
+Proof. exact thm_outside_full. Qed.
+
+(* The unguarded statement
+     forall main pts ns n p, has_shape_b main = true -> forallb label_dims_ok_b ns = true ->
+       In (n, p) (combine ns (layout main pts ns)) ->
+       side_ok_b 0 0 (full_box main pts []) (n_key n) (near_box n p) = true
+   is refuted: in  b; a: {near: b; width: 800; height: 400}; r: R {near: bottom-right}  (boxes as dagre
+   lays them out) the bottom-right near is put at (73,253), inside the 800x400 shape at (113,0). *)
+Theorem C24_whole_diagram_refuted_by_object_near :
+  let p := (73 # 1, 253 # 1) in
+  has_shape_b cex_main = true /\ forallb label_dims_ok_b [cex_near] = true /\
+  In (cex_near, p) (combine [cex_near] (layout cex_main [] [cex_near])) /\
+  side_ok_b 0 0 (full_box cex_main [] []) BottomRight (near_box cex_near p) = false /\
+  boxes_overlap_b (near_box cex_near p) (mkbox 113 0 800 400) = true.
+Proof. exact thm_object_near_refuted. Qed.
+
 (* non-vacuity: a one-shape diagram with a labelled top-left near satisfies the hypotheses *)
 Example C24_hyps_satisfiable :
   let main := [GMain (mkbox 0 0 50 60) true None 10 20] in
@@ -69,8 +95,23 @@ Example C24_hyps_satisfiable :
   In (hd (mknear TopLeft 0 0 None 0 0) ns, ((-50) # 1, (-81) # 1)) (combine ns (layout main [] ns)).
 Proof. repeat split; vm_compute; try congruence. left. reflexivity. Qed.
 
+(* two nears: a top-center title and a top-left corner (hypotheses of the centre-first theorem) *)
+Example C24_center_first_hyps_satisfiable :
+  let main := [GMain (mkbox 0 0 50 60) true None 10 20] in
+  let ns := [mknear TopLeft 30 40 None 0 0; mknear TopCenter 300 40 None 0 0] in
+  forallb label_dims_ok_b ns = true /\
+  In (mknear TopLeft 30 40 None 0 0, ((-700) # 4, (-60) # 1)) (combine ns (layout main [] ns)) /\
+  In (mknear TopCenter 300 40 None 0 0, ((-500) # 4, (-60) # 1)) (combine ns (layout main [] ns)).
+Proof. vm_compute. repeat split; auto. Qed.
+
+Example C24_guard_satisfiable :
+  no_obj_near_b [GMain (mkbox 0 0 50 60) true None 10 20] = true.
+Proof. reflexivity. Qed.
+
 Print Assumptions C24_near_outside_on_side.
 Print Assumptions C24_center_nears_centred.
 Print Assumptions C24_near_clear_of_every_shape.
 Print Assumptions C24_near_clear_of_every_route_point.
 Print Assumptions C24_later_nears_clear_of_center_nears.
+Print Assumptions C24_near_outside_whole_diagram_guarded.
+Print Assumptions C24_whole_diagram_refuted_by_object_near.
